@@ -59,8 +59,10 @@ func (u *unaryNegation) loadSeries(ctx context.Context) error {
 		lbls := labels.NewBuilder(vectorSeries[i]).Del(labels.MetricName).Labels(nil)
 		u.series[i] = lbls
 	}
-	// Dropping the metric name can make two series indistinguishable.
-	u.duplicates = model.NewDuplicateLabelCheck(u.series)
+	// Dropping the metric name can make two series indistinguishable. The
+	// Prometheus engine negates a whole matrix at once and rejects equal
+	// labels even when the samples lie at different steps.
+	u.duplicates = model.NewDuplicateLabelCheckAcrossSteps(u.series)
 
 	u.workers.Start(ctx)
 	return nil
